@@ -13,9 +13,11 @@ import (
 	"bytes"
 	"fmt"
 	"go/ast"
+	"go/parser"
 	"go/printer"
 	"go/token"
 	"math/big"
+	"sort"
 	"strings"
 )
 
@@ -69,6 +71,58 @@ func cgNorm(s string) string {
 	return b.String()
 }
 
+// cgAlpha renames every identifier declared inside fd (receiver, parameters, results, :=, var,
+// range variables, function-literal parameters) to v0, v1, ... in order of first appearance, so
+// that matching never depends on the spelling of a local name.
+func cgAlpha(fd *ast.FuncDecl) {
+	names := map[*ast.Object]string{}
+	n := 0
+	ast.Inspect(fd, func(x ast.Node) bool {
+		id, ok := x.(*ast.Ident)
+		if !ok || id.Obj == nil || id.Obj.Kind != ast.Var || id.Name == "_" {
+			return true
+		}
+		d, ok := id.Obj.Decl.(ast.Node)
+		if !ok || d.Pos() < fd.Pos() || d.End() > fd.End() {
+			return true
+		}
+		nm, seen := names[id.Obj]
+		if !seen {
+			nm = fmt.Sprintf("v%d", n)
+			n++
+			names[id.Obj] = nm
+		}
+		id.Name = nm
+		return true
+	})
+}
+
+// cgSnippet parses one function declaration given as text and alpha-normalises it.
+func cgSnippet(src string) (string, error) {
+	fset := token.NewFileSet()
+	f, err := parser.ParseFile(fset, "snippet.go", "package p9\n"+src, 0)
+	if err != nil {
+		return "", err
+	}
+	for _, d := range f.Decls {
+		if fd, ok := d.(*ast.FuncDecl); ok {
+			cgAlpha(fd)
+			fd.Doc = nil
+			var buf bytes.Buffer
+			if err := printer.Fprint(&buf, fset, fd); err != nil {
+				return "", err
+			}
+			return cgNorm(buf.String()), nil
+		}
+	}
+	return "", fmt.Errorf("no function in snippet")
+}
+
+func (g *cg) sameAs(fd *ast.FuncDecl, want string) bool {
+	w, err := cgSnippet(want)
+	return err == nil && g.text(fd) == w
+}
+
 func (g *cg) text(n ast.Node) string {
 	var buf bytes.Buffer
 	if fd, ok := n.(*ast.FuncDecl); ok {
@@ -103,9 +157,9 @@ var cgPrimitives = map[string]string{
 	"registry.get":       `func (r *registry) get(_ tag, t msgType) (message, error) { entry := &r.factories[t]; if entry.create == nil { return nil, &ErrInvalidMsgType{t} }; select { case msg := <-entry.cache: return msg, nil; default: return entry.create(), nil } }`,
 }
 
-const cgRreaddirEncode = `{ entriesBuf := buffer{}; payloadSize := 0; for _, d := range r.Entries { d.encode(&entriesBuf); if len(entriesBuf.data) > int(r.Count) { break }; payloadSize = len(entriesBuf.data) }; r.Count = uint32(payloadSize); r.payload = entriesBuf.data[:payloadSize]; b.Write32(r.Count) }`
-const cgRreaddirDecode = `{ r.Count = b.Read32(); entriesBuf := buffer{data: r.payload}; r.Entries = r.Entries[:0]; for { var d Dirent; d.decode(&entriesBuf); if entriesBuf.isOverrun() { break }; r.Entries = append(r.Entries, d) } }`
-const cgRreaddirDecodeNoReset = `{ r.Count = b.Read32(); entriesBuf := buffer{data: r.payload}; for { var d Dirent; d.decode(&entriesBuf); if entriesBuf.isOverrun() { break }; r.Entries = append(r.Entries, d) } }`
+const cgRreaddirEncode = `func (r *rreaddir) encode(b *buffer) { entriesBuf := buffer{}; payloadSize := 0; for _, d := range r.Entries { d.encode(&entriesBuf); if len(entriesBuf.data) > int(r.Count) { break }; payloadSize = len(entriesBuf.data) }; r.Count = uint32(payloadSize); r.payload = entriesBuf.data[:payloadSize]; b.Write32(r.Count) }`
+const cgRreaddirDecode = `func (r *rreaddir) decode(b *buffer) { r.Count = b.Read32(); entriesBuf := buffer{data: r.payload}; r.Entries = r.Entries[:0]; for { var d Dirent; d.decode(&entriesBuf); if entriesBuf.isOverrun() { break }; r.Entries = append(r.Entries, d) } }`
+const cgRreaddirDecodeNoReset = `func (r *rreaddir) decode(b *buffer) { r.Count = b.Read32(); entriesBuf := buffer{data: r.payload}; for { var d Dirent; d.decode(&entriesBuf); if entriesBuf.isOverrun() { break }; r.Entries = append(r.Entries, d) } }`
 
 func cgBasicWidth(t string) int {
 	switch t {
@@ -136,9 +190,18 @@ func (g *cg) typeWidth(t string) int {
 }
 
 func (g *cg) load() error {
+	// a private parse: the functions are alpha-normalised in place, other generators must not see that
+	g.r = &Repo{Root: g.r.Root, Fset: token.NewFileSet(), pkgs: map[string]map[string]*ast.File{}}
 	files, err := g.r.Files("p9")
 	if err != nil {
 		return err
+	}
+	for _, fn := range SortedNames(files) {
+		for _, d := range files[fn].Decls {
+			if fd, ok := d.(*ast.FuncDecl); ok && fd.Body != nil {
+				cgAlpha(fd)
+			}
+		}
 	}
 	g.structs = map[string]*cgStruct{}
 	g.named = map[string]string{}
@@ -195,8 +258,8 @@ func (g *cg) load() error {
 		if !ok {
 			return fmt.Errorf("p9: primitive %s not found", name)
 		}
-		if g.text(fd) != cgNorm(want) {
-			return g.r.Refuse(fd.Pos(), "%s is not the expected primitive (expected: %s)", name, want)
+		if !g.sameAs(fd, want) {
+			return g.r.Refuse(fd.Pos(), "%s is not the expected primitive up to renaming of locals (expected: %s)", name, want)
 		}
 	}
 	g.env, _, err = collectConsts(g.r, "p9")
@@ -241,7 +304,7 @@ func (g *cg) loadWrappers() error {
 			if !ok {
 				return g.r.Refuse(fd.Pos(), "Write%s: expected b.WriteY(...)", k)
 			}
-			inner, arg, ok := g.bufCall(es.X, "b", "Write")
+			inner, arg, ok := g.bufCall(es.X, cgRecvName(fd), "Write")
 			if !ok {
 				return g.r.Refuse(fd.Pos(), "Write%s: expected b.WriteY(...)", k)
 			}
@@ -299,7 +362,7 @@ func (g *cg) loadWrappers() error {
 				if !ok || len(a.Args) != 1 || fn.Name != rtype {
 					return g.r.Refuse(fd.Pos(), "Read%s: expected return %s(b.ReadY())", k, rtype)
 				}
-				inner, arg, ok := g.bufCall(a.Args[0], "b", "Read")
+				inner, arg, ok := g.bufCall(a.Args[0], cgRecvName(fd), "Read")
 				if !ok || arg != nil {
 					return g.r.Refuse(fd.Pos(), "Read%s: expected return %s(b.ReadY())", k, rtype)
 				}
@@ -316,7 +379,7 @@ func (g *cg) loadWrappers() error {
 				}
 				g.rd[k] = cgKind{ik.coq, ik.width, rtype, mw > ik.width}
 			case *ast.BinaryExpr: // b.ReadY() & permissionsMask
-				inner, arg, ok := g.bufCall(a.X, "b", "Read")
+				inner, arg, ok := g.bufCall(a.X, cgRecvName(fd), "Read")
 				if a.Op != token.AND || !ok || arg != nil {
 					return g.r.Refuse(fd.Pos(), "Read%s: expected return b.ReadY() & permissionsMask", k)
 				}
@@ -510,7 +573,19 @@ func (g *cg) maskIfs(stmts []ast.Stmt, recv, mask, prefix string) ([]string, int
 		}
 		bits = append(bits, fmt.Sprintf("(%d, %s)", p, CoqString(prefix+f)))
 	}
+	cgSortBits(bits)
 	return bits, i, nil
+}
+
+// cgSortBits orders "(pos, name)" entries by bit position: the order of the if-blocks / assignments
+// that build or test a mask is irrelevant to the bytes.
+func cgSortBits(bits []string) {
+	pos := func(s string) int {
+		n := 0
+		fmt.Sscanf(s, "(%d,", &n)
+		return n
+	}
+	sort.SliceStable(bits, func(i, j int) bool { return pos(bits[i]) < pos(bits[j]) })
 }
 
 func cgTrimDot(p string) string { return strings.TrimSuffix(p, ".") }
@@ -529,7 +604,7 @@ func (g *cg) encodeProg(T, prefix string, depth int) ([]cgItem, string, error) {
 	if buf == "" {
 		return nil, "", g.r.Refuse(fd.Pos(), "encode: expected one named *buffer parameter")
 	}
-	if g.text(fd.Body) == cgNorm(cgRreaddirEncode) && recv == "r" && buf == "b" {
+	if g.sameAs(fd, cgRreaddirEncode) {
 		ent, pay, err := g.encodeProg("Dirent", prefix+"Entries[].", depth+1)
 		if err != nil {
 			return nil, "", err
@@ -881,7 +956,7 @@ func (g *cg) decodeProg(T, prefix string, depth int) ([]string, error) {
 	if buf == "" {
 		return nil, g.r.Refuse(fd.Pos(), "decode: expected one named *buffer parameter")
 	}
-	if body := g.text(fd.Body); recv == "r" && buf == "b" && (body == cgNorm(cgRreaddirDecode) || body == cgNorm(cgRreaddirDecodeNoReset)) {
+	if g.sameAs(fd, cgRreaddirDecode) || g.sameAs(fd, cgRreaddirDecodeNoReset) {
 		ent, err := g.decodeProg("Dirent", prefix+"Entries[].", depth+1)
 		if err != nil {
 			return nil, err
@@ -899,7 +974,7 @@ func (g *cg) decodeProg(T, prefix string, depth int) ([]string, error) {
 			row = append(row, fmt.Sprintf("(%s, %s)", p, k))
 		}
 		reset := "true"
-		if body == cgNorm(cgRreaddirDecodeNoReset) {
+		if g.sameAs(fd, cgRreaddirDecodeNoReset) {
 			reset = "false"
 		}
 		pf, err := g.payloadField(T)
@@ -1002,6 +1077,7 @@ func (g *cg) decodeProg(T, prefix string, depth int) ([]string, error) {
 				if rk.width == 0 || rk.coq == "KPerm" {
 					return nil, g.r.Refuse(st.Pos(), "decode: mask read with Read%s", k)
 				}
+				cgSortBits(bits)
 				out = append(out, fmt.Sprintf("DMask %s %d [%s]", CoqString(cgTrimDot(prefix)), rk.width, strings.Join(bits, "; ")))
 				i += j
 			case k == "16":
@@ -1012,8 +1088,8 @@ func (g *cg) decodeProg(T, prefix string, depth int) ([]string, error) {
 				if len(next) > 0 {
 					if as, ok := next[0].(*ast.AssignStmt); ok && as.Tok == token.ASSIGN && len(as.Lhs) == 1 {
 						f, okf := cgFieldPath(as.Lhs[0], recv)
-						if !okf || g.text(as.Rhs[0]) != recv+"."+f+"[:0]" {
-							return nil, g.r.Refuse(as.Pos(), "decode: expected  %s.F = %s.F[:0]", recv, recv)
+						if !okf || (g.text(as.Rhs[0]) != recv+"."+f+"[:0]" && g.text(as.Rhs[0]) != "nil") {
+							return nil, g.r.Refuse(as.Pos(), "decode: expected  %s.F = %s.F[:0]  (or nil)", recv, recv)
 						}
 						resetF = f
 						out = append(out, fmt.Sprintf("DReset %s", CoqString(prefix+f)))
@@ -1024,8 +1100,24 @@ func (g *cg) decodeProg(T, prefix string, depth int) ([]string, error) {
 					return nil, g.r.Refuse(st.Pos(), "decode: count without a loop")
 				}
 				fs, ok := next[j].(*ast.ForStmt)
-				if !ok || fs.Init == nil || fs.Cond == nil || fs.Post == nil || g.text(fs.Init) != "i:=0" || g.text(fs.Cond) != "i<int("+local+")" || g.text(fs.Post) != "i++" {
-					return nil, g.r.Refuse(next[j].Pos(), "decode: expected  for i := 0; i < int(%s); i++", local)
+				guarded := "false"
+				if ok && fs.Init != nil && fs.Cond != nil && fs.Post != nil {
+					iv := strings.TrimSuffix(g.text(fs.Init), ":=0")
+					cond := g.text(fs.Cond)
+					switch {
+					case iv == "" || iv == g.text(fs.Init) || g.text(fs.Post) != iv+"++":
+						ok = false
+					case cond == iv+"<int("+local+")":
+					case cond == iv+"<int("+local+")&&!"+buf+".isOverrun()":
+						guarded = "true"
+					default:
+						ok = false
+					}
+				} else {
+					ok = false
+				}
+				if !ok {
+					return nil, g.r.Refuse(next[j].Pos(), "decode: expected  for i := 0; i < int(%s) [&& !%s.isOverrun()]; i++", local, buf)
 				}
 				f, elem, err := g.appendLoop(fs.Body.List, recv, buf, s, DT, prefix, depth, fs.Pos())
 				if err != nil {
@@ -1034,7 +1126,7 @@ func (g *cg) decodeProg(T, prefix string, depth int) ([]string, error) {
 				if resetF != "" && resetF != f {
 					return nil, g.r.Refuse(fs.Pos(), "decode: %s reset but %s appended to", resetF, f)
 				}
-				out = append(out, fmt.Sprintf("DLoop %s %s", CoqString(prefix+f), elem))
+				out = append(out, fmt.Sprintf("DLoop %s %s %s", CoqString(prefix+f), elem, guarded))
 				i += j + 1
 			case k == "32":
 				// count := b.Read32(); if count != uint32(len(RECV.F)) { b.markOverrun() }
@@ -1336,7 +1428,15 @@ func genCodec(r *Repo) (string, error) {
 			if !ok || is.Init == nil || len(is.Body.List) == 0 {
 				return true
 			}
-			if g.text(is.Init) == "f,ok:=m.(*tflush)" && g.text(is.Cond) == "ok" && g.text(is.Body.List[0]) == "f.wait=nil" {
+			as, ok := is.Init.(*ast.AssignStmt)
+			if !ok || as.Tok != token.DEFINE || len(as.Lhs) != 2 || len(as.Rhs) != 1 {
+				return true
+			}
+			ta, ok := as.Rhs[0].(*ast.TypeAssertExpr)
+			if !ok || ta.Type == nil || g.text(ta.Type) != "*tflush" {
+				return true
+			}
+			if g.text(is.Cond) == g.text(as.Lhs[1]) && g.text(is.Body.List[0]) == g.text(as.Lhs[0])+".wait=nil" {
 				resets = `[("tflush", ["wait"])]`
 			}
 			return true
@@ -1355,3 +1455,8 @@ func cgSortStrings(l []string) {
 }
 
 func init() { register(Generator{Name: "CodecGen", Run: genCodec}) }
+
+func cgRecvName(fd *ast.FuncDecl) string {
+	r, _ := cgRecvAndBuf(fd)
+	return r
+}
